@@ -235,3 +235,157 @@ def reused_object_world(ctx, name, depth, nodedup_depth=2, nmax=4):
                          bounds=dict(files=2, dtypes={k: str(v) for k, v in DTS.items()}, rows_per_file_max=nmax + 2, depth=depth,
                                      events=["open(f, w|r+|r, delim)", "with-open", "write", "close", "repr", "peek", "edit-header", "read"],
                                      isolation="every history in a forked child with pristine module state"))
+
+
+def reused_recfile_world(ctx, name, depth, nodedup_depth=2, nmax=4):
+    """the same for ONE low-level ``Recfile`` object and two header-less files (dtype A / dtype B, binary or ','-text):
+    ``open()`` in 'w', 'r+' and 'r' mode, write, read (whole table, a row list, one column, a scalar row), repr, close."""
+    from esutil import recfile
+    import esutil.recfile.Util as ru
+
+    def expect(dk, m):
+        exp = chunk(dk, 0, m["n"])
+        if m["delim"] is not None:
+            exp = exp.astype(native(DTS[dk]))
+        return exp
+
+    def child(hist, tmp):
+        fns = [os.path.join(tmp, "rfreuse_%d.rec" % f) for f in (0, 1)]
+        for fn in fns:
+            if os.path.exists(fn):
+                os.unlink(fn)
+        ms = [dict(exists=False, delim=None, n=0) for _ in (0, 1)]
+        # the constructor needs a file: the object starts its life on a scratch file of a THIRD dtype
+        f0 = os.path.join(tmp, "rfreuse_first.rec")
+        first = np.zeros(5, dtype=[("zz", "<u2"), ("s", "S7")])
+        recfile.write(f0, first)
+        R = recfile.Recfile(f0, mode="r", dtype=first.dtype)
+        R.read()
+        R.close()
+        cur = None
+        msg = None
+        try:
+            for op in hist:
+                k = op[0]
+                if k == "open":
+                    _, f, mode, delim = op
+                    m = ms[f]
+                    if mode == "w":
+                        R.open(fns[f], mode="w", delim=delim)
+                        m.update(exists=True, delim=delim, n=0)
+                    else:
+                        R.open(fns[f], mode=mode, delim=m["delim"], dtype=np.dtype(DTS[FDK[f]]),
+                               **({} if op[3] == "count" else {"nrows": m["n"]}))
+                    cur = dict(f=f, mode=mode)
+                elif k == "write":
+                    f = cur["f"]
+                    m = ms[f]
+                    R.write(chunk(FDK[f], m["n"], op[1]))
+                    m["n"] += op[1]
+                elif k == "close":
+                    R.close()
+                    cur = None
+                elif k == "repr":
+                    if not isinstance(repr(R), str):
+                        msg = "repr returned %r" % (repr(R),)
+                        break
+                elif k == "read":
+                    f = cur["f"]
+                    m = ms[f]
+                    exp = expect(FDK[f], m)
+                    sel = op[1]
+                    if sel == "all":
+                        got, e = R.read(), exp
+                    elif sel == "rows":
+                        got, e = R.read(rows=[m["n"] - 1, 0]), exp[[0, m["n"] - 1]] if m["n"] > 1 else exp[[0]]
+                    elif sel == "col":
+                        got, e = R.read(columns="a"), exp["a"]
+                    elif sel == "slice":
+                        got, e = R[-2:], exp[-2:]
+                    else:
+                        got, e = R[-1], exp[m["n"] - 1:m["n"]]
+                    r = T.same_table(np.atleast_1d(got), e) if e.dtype.names else T.same_plain(got, e)
+                    if r:
+                        msg = "file %d (dtype %s, delim %r) read %r through the re-used object after %r: %s" % (f, FDK[f], m["delim"], sel, hist[:-1], r)
+                        break
+                    if isinstance(got, np.ndarray) and got.flags.writeable and got.size:
+                        got[...] = got[::-1].copy()
+                else:
+                    raise ValueError(op)
+        except Exception as e:
+            import traceback
+            tb = traceback.extract_tb(e.__traceback__)[-1]
+            msg = "operation %r after %r raised %s: %s [at %s:%d]" % (hist[-1] if hist else None, hist[:-1], type(e).__name__, str(e)[:200],
+                                                                      os.path.basename(tb.filename), tb.lineno)
+        hstate = fingerprint({k: v for k, v in R.__dict__.items() if k not in ("robj", "filename")})
+        try:
+            R.close()
+        except Exception:
+            pass
+        if msg is None:
+            for f in (0, 1):
+                m = ms[f]
+                if m["exists"] and m["n"] > 0:
+                    try:
+                        exp = expect(FDK[f], m)
+                        raw = open(fns[f], "rb").read()
+                        r = None
+                        if m["delim"] is None and raw != exp.tobytes():
+                            r = "file bytes are not the concatenation of the chunks (%d bytes, expected %d)" % (len(raw), exp.nbytes)
+                        if r is None:
+                            r = T.same_table(recfile.read(fns[f], np.dtype(DTS[FDK[f]]), delim=m["delim"]), exp)
+                    except Exception as e:
+                        r = "reading it back raised %s: %s" % (type(e).__name__, str(e)[:200])
+                    if r:
+                        msg = "file %d (dtype %s) after the history %r and closing the object: %s" % (f, FDK[f], hist, r)
+                        break
+        raws = []
+        for fn in fns + [f0]:
+            raws.append(hashlib.sha1(open(fn, "rb").read()).hexdigest() if os.path.exists(fn) else None)
+            if os.path.exists(fn):
+                os.unlink(fn)
+        key = (tuple(raws), hstate, module_state(ru), tuple((m["exists"], m["delim"], m["n"]) for m in ms),
+               None if cur is None else (cur["f"], cur["mode"]))
+        ops = []
+        last = hist[-1] if hist else None
+        if last != ("repr",):
+            ops.append(("repr",))
+        if cur is None:
+            for f in (0, 1):
+                m = ms[f]
+                if m["n"] <= nmax:
+                    ops.append(("open", f, "w", None))
+                    ops.append(("open", f, "w", ","))
+                    if m["exists"] and m["n"] > 0:
+                        ops.append(("open", f, "r+", "nrows"))
+                if m["exists"] and m["n"] > 0:
+                    ops.append(("open", f, "r", "nrows"))
+                    ops.append(("open", f, "r", "count"))
+        else:
+            m = ms[cur["f"]]
+            if cur["mode"] in ("w", "r+") and m["n"] <= nmax:
+                ops.append(("write", 1))
+                ops.append(("write", 2))
+            if cur["mode"] == "r":
+                for sel in ("all", "rows", "col", "slice", "last"):
+                    if last != ("read", sel):
+                        ops.append(("read", sel))
+            if m["n"] > 0:
+                ops.append(("close",))
+        return msg, key, tuple(ops)
+
+    def execute(hist, rec):
+        st, out = in_child(lambda: child(hist, rec.tmp))
+        if st != "ok":
+            rec.fail(hist, "history could not be executed: %s" % (out,))
+            return None
+        msg, key, ops = out
+        if msg:
+            rec.fail(hist, msg)
+            return None
+        return key, ops
+
+    return ctx.histories(name, [()], execute, depth=depth, nodedup_depth=nodedup_depth,
+                         bounds=dict(files=2, dtypes={k: str(v) for k, v in DTS.items()}, rows_per_file_max=nmax + 2, depth=depth,
+                                     events=["open(f, w|r+|r, delim / nrows given or counted)", "write", "close", "repr", "read(all|rows|col|slice|last)"],
+                                     isolation="every history in a forked child with pristine module state"))
